@@ -666,4 +666,4 @@ def c01k(tree, ob):
             ob.site(SESS, r, 'asks for another call only after a recv()')
         else:
             ob.violate(SESS, fv.qual, src(r) + ' without recv()', 'the receive callback can return to the event loop, asking to be called again, without reading: the socket stays readable, '
-                       'the peer\'s octets (its acknowledgements, which would empty our own backlog) are never taken, and two busy endpoints wait for each other forever', r)
+                       'the peer\'s octets (its acknowledgements, which would empty our own backlog) are never taken, and two busy endpoints wait for each other forever', r, sure=True)
